@@ -128,6 +128,7 @@ def check_key_actor(rep, ctx):
                 else:
                     engine.require(ev.ret.discr() == 0)
         eng = ctx.engine(loop_bound=len(seq), max_paths=4000)
+        eng.auto_inline = ctx.new_function_auto()        # arm bodies moved into helpers are looked into
         eng.event_hook = hook
         paths = eng.explore(body)
         n_ok = n = 0
